@@ -5,7 +5,6 @@ import (
 	"encoding/json"
 	"errors"
 	"fmt"
-	"io"
 	"strings"
 	"sync"
 	"sync/atomic"
@@ -197,12 +196,13 @@ type chanSocket struct {
 	outs   []map[string]interface{}
 	raw    []string
 	writes int64
+	end    endGuard
 }
 
 func (s *chanSocket) ReadJSON(v interface{}) error {
 	f, ok := <-s.in
 	if !ok {
-		return io.EOF
+		return s.end.ended()
 	}
 	return json.NewDecoder(strings.NewReader(f)).Decode(v)
 }
@@ -402,6 +402,7 @@ func runM3Scenario(run *vlib.Run, caseIdx int, sc m3Scenario) {
 	ctx, cancel := context.WithCancel(context.Background())
 	defer cancel()
 	lg := &subLogger{ended: map[string]int{}}
+	sock.end.cancel = cancel
 	conn := graphql.CreateConnection(ctx, sock, schema, graphql.WithMinRerunInterval(time.Millisecond), graphql.WithSubscriptionLogger(lg))
 	var served int32
 	var escaped *panicRec
@@ -540,6 +541,10 @@ func runM3Scenario(run *vlib.Run, caseIdx int, sc m3Scenario) {
 	}
 	if escaped != nil {
 		violate("a panic escaped ServeJSONSocket", map[string]interface{}{"panic": escaped.Value})
+		return
+	}
+	if n := sock.end.excessReads(); n > 0 {
+		violate(fmt.Sprintf("the read loop kept reading after a permanent non-close read error (%d reads)", n), nil)
 		return
 	}
 	if failed {
